@@ -355,3 +355,368 @@ def replay_scripted(chk: Check, violation_site="driver.afqmc:report"):
                    limit=4)
     chk.note("report_scripted", stats)
     return stats
+
+
+# ----------------------------------------------------------------------------------------- code -> spec (recorded runs)
+_tls = threading.local()
+
+
+class RecComm:
+    """delegating communicator that records the driver's own collectives (float32 gathers, the integer reduce, the
+    object broadcasts) in the calling rank's log"""
+
+    def __init__(self, inner, log):
+        self._inner, self._log = inner, log
+
+    def __getattr__(self, k):
+        return getattr(self._inner, k)
+
+    def Gather(self, sendbuf, recvbuf, root=0):
+        out = self._inner.Gather(sendbuf, recvbuf, root=root)
+        sb = np.asarray(sendbuf)
+        if sb.dtype == np.float32:                     # the reconfiguration's own gathers are float64 / complex
+            self._log.append(("Gather", sb.copy(), None if recvbuf is None else np.array(recvbuf, copy=True)))
+        return out
+
+    def Reduce(self, sendbuf, recvbuf, op=None, root=0):
+        out = self._inner.Reduce(sendbuf, recvbuf, op=op, root=root) if op is not None else self._inner.Reduce(sendbuf, recvbuf, root=root)
+        sb = np.asarray(sendbuf[0] if isinstance(sendbuf, (list, tuple)) else sendbuf)
+        if np.issubdtype(sb.dtype, np.integer):
+            rb = recvbuf[0] if isinstance(recvbuf, (list, tuple)) else recvbuf
+            self._log.append(("Reduce", int(sb), None if rb is None else int(np.asarray(rb))))
+        return out
+
+    def bcast(self, obj, root=0):
+        out = self._inner.bcast(obj, root=root)
+        self._log.append(("bcast", out))
+        return out
+
+
+def record_run(chk: Check, R, mk_system, options, block, n_blocks, observable, name, timeout=300.0):
+    """a REAL run of driver.afqmc (real sampler, proxied for observation) on R thread ranks with rank 0's bookkeeping
+    calls recorded in program order.  returns dict(logs per rank, ad observations per rank, proxy events, results)"""
+    import jax
+    from ad_afqmc import driver, stat_utils
+    S = proxies.sampler_proxy()
+    world = ThreadWorld(R, eager=False, timeout=timeout)
+    systems, logs, adobs = [], [[] for _ in range(R)], [[] for _ in range(R)]
+    for r in range(R):
+        sysd = mk_system(r)
+        for k in ("trial", "prop"):
+            sysd[k]._rank = r
+        smp = S(n_prop_steps=block[0], n_ene_blocks=block[1], n_sr_blocks=block[2], n_blocks=n_blocks)
+        smp._rank = r
+        sysd["sampler"] = smp
+        systems.append(sysd)
+    proxies.reset()
+    orig_savetxt, orig_block, orig_rej = np.savetxt, stat_utils.blocking_analysis, stat_utils.reject_outliers
+    orig_jvp, orig_vjp = driver.jvp, driver.vjp
+
+    def mylog():
+        return logs[getattr(_tls, "rank", 0)]
+
+    def rec_savetxt(fname, X, *a, **k):
+        mylog().append(("Savetxt", os.path.basename(str(fname)), np.array(X, dtype=float, copy=True)))
+        return orig_savetxt(fname, X, *a, **k)
+
+    def rec_block(w, e, neql=0, printQ=False, **k):
+        out = orig_block(w, e, neql=neql, printQ=printQ, **k)
+        mylog().append(("Blocking", np.array(w, dtype=float, copy=True), np.array(e, dtype=float, copy=True), int(neql), bool(printQ), out))
+        return out
+
+    def rec_rej(data, obs, *a, **k):
+        out = orig_rej(data, obs, *a, **k)
+        mylog().append(("Reject", np.array(data, dtype=float, copy=True), int(obs), (a, k), np.array(out[0], dtype=float, copy=True),
+                        np.array(out[1], dtype=bool, copy=True)))
+        return out
+
+    def rec_jvp(fun, primals, tangents, has_aux=False):
+        out = orig_jvp(fun, primals, tangents, has_aux=has_aux)
+        import jax.numpy as jnp
+        adobs[_tls.rank].append({"e": float(out[0]), "o": float(out[1]), "wsum": float(jnp.sum(out[2]["weights"])),
+                                 "eest_out": float(out[2]["e_estimate"])})
+        return out
+
+    def rec_vjp(fun, *primals, has_aux=False):
+        e, f, aux = orig_vjp(fun, *primals, has_aux=has_aux)
+        import jax.numpy as jnp
+        rec = {"e": float(e), "wsum": float(jnp.sum(aux["weights"])), "eest_out": float(aux["e_estimate"]), "rdm": None}
+        adobs[_tls.rank].append(rec)
+
+        def f2(ct):
+            res = f(ct)
+            rec["rdm"] = np.array(res[1], copy=True)
+            return res
+        return e, f2, aux
+
+    def body(comm, r):
+        _tls.rank = r
+        s = systems[r]
+        return driver.afqmc(dict(s["ham_data"]), s["ham"], s["prop"], s["trial"], dict(s["wave_data"]), s["sampler"], observable,
+                            dict(options), FakeMPI(RecComm(comm, logs[r])))
+
+    d = chk.scratch(name)
+    old = os.getcwd()
+    os.chdir(d)
+    buf = io.StringIO()
+    try:
+        with contextlib.redirect_stdout(buf), mock.patch.object(np, "savetxt", rec_savetxt), \
+                mock.patch.object(stat_utils, "blocking_analysis", rec_block), mock.patch.object(stat_utils, "reject_outliers", rec_rej), \
+                mock.patch.object(driver, "jvp", rec_jvp), mock.patch.object(driver, "vjp", rec_vjp), np.errstate(all="ignore"):
+            rr = run_ranks(world, body, join_timeout=timeout)
+    finally:
+        os.chdir(old)
+    if not rr.ok:
+        real = [e for e in rr.errors if e is not None and not isinstance(e, CommError)]
+        if not real:
+            raise MachineryError(f"recorded driver run did not complete: {rr.describe()}")
+    m = re.search(r"Number of large deviations:\s*(-?\d+)", buf.getvalue())
+    return {"ok": rr.ok, "describe": rr.describe(), "logs": logs, "adobs": adobs, "events": proxies.snapshot(), "results": rr.results,
+            "large": int(m.group(1)) if m else None, "systems": systems, "dir": d}
+
+
+def build_trace(rec, R, n_blocks, ad, observable, trial_rdm1):
+    """rank 0's recorded calls -> the event list of ReportTrace.tla (floats -> identifiers) + the constants"""
+    f32 = lambda x: float(np.float32(x))
+    vals = {0.0}
+    log0 = rec["logs"][0]
+    if observable is not None:
+        op, const = np.asarray(observable[0], dtype=float), float(observable[1])
+    else:
+        op, const = np.asarray(rec["systems"][0]["ham_data"]["h1"], dtype=float), 0.0
+    trial_obs = f32(float(np.sum(np.asarray(trial_rdm1) * op)) + const)
+    trial_norm = float(np.linalg.norm(np.asarray(trial_rdm1).astype(np.float32).astype(np.float64)))   # the table stores float32 samples in a float64 array
+    # ---- what every rank obtained in every block (independent observation points)
+    per = []
+    for r in range(R):
+        if ad == "none":
+            ex = [e for e in rec["events"] if e["ev"] == "Exit" and int(e.get("rank", 0)) == r]
+            per.append([{"e": e["energy"], "wsum": e["wsum"], "eest_out": e["eest_out"], "o": None, "rdm": None} for e in ex])
+        else:
+            per.append(rec["adobs"][r])
+        if len(per[-1]) != n_blocks:
+            raise MachineryError(f"rank {r}: {len(per[-1])} observed sampler calls for {n_blocks} blocks")
+    first_prop = {}        # e_estimate read by the first step of each sampler call, per rank
+    for r in range(R):
+        armed, out = False, []
+        for e in rec["events"]:
+            if int(e.get("rank", 0)) != r:
+                continue
+            if e["ev"] == "Enter":
+                armed = True
+            elif e["ev"] == "Prop" and armed:
+                out.append(float(np.real(e["eest"])))
+                armed = False
+        first_prop[r] = out
+    nonfinite = lambda x: x is None or not np.all(np.isfinite(x))
+    raw = [[None] * R for _ in range(n_blocks)]
+    for b in range(n_blocks):
+        for r in range(R):
+            x = per[r][b]
+            w, e = f32(x["wsum"]), f32(x["e"])
+            o, nrm = f32(const), 0.0
+            if ad == "forward":
+                o = NAN if nonfinite(x["o"]) else f32(x["o"] + const)
+            elif ad == "reverse":
+                ob = None if x["rdm"] is None else float(np.sum(np.asarray(x["rdm"]) * op))
+                o = NAN if nonfinite(ob) else f32(ob + const)
+                nrm = NAN if o == NAN else float(np.linalg.norm(np.asarray(x["rdm"]).astype(np.float32).astype(np.float64)))
+            raw[b][r] = [w, e, o, nrm]
+            vals.update(v for v in (w, e, o, nrm) if v != NAN)
+    vals.update((trial_obs, trial_norm, f32(const)))
+    # ---- rank 0's calls
+    gathers = [[x for x in rec["logs"][r] if x[0] == "Gather"] for r in range(R)]
+    events, gi, bi, block_idx, bcasts = [], 0, 0, -1, [x[1] for x in log0 if x[0] == "bcast"]
+    ngath = 4 if ad in ("reverse", "2rdm") else 3
+    names = ["w", "e", "o", "nrm"]
+    pending = []       # (event dict, list of float slots to translate later)
+    est_prev = None
+
+    def key(a):        # identity of a float32 payload: scalars by value, density-matrix samples by their norm
+        a = np.asarray(a)
+        return float(a.reshape(-1)[0]) if a.size == 1 else float(np.linalg.norm(a.astype(np.float32).astype(np.float64)))
+
+    for x in log0:
+        if x[0] == "Gather":
+            k = gi % ngath
+            if k == 0:
+                block_idx += 1
+                b = block_idx
+                est_ok = True
+                if b > 0 and all(len(first_prop[r]) > b for r in range(R)):
+                    be_prev = float(bcasts[b - 1])
+                    for r in range(R):
+                        want = 0.9 * per[r][b - 1]["eest_out"] + 0.1 * be_prev
+                        got = first_prop[r][b]
+                        if not (abs(got - want) <= 1e-5 * max(1.0, abs(want)) or (np.isnan(got) and np.isnan(want))):
+                            est_ok = False
+                events.append({"ev": "Sample", "raw": raw[b], "est_ok": est_ok})
+            sends = [key(gathers[r][gi][1]) for r in range(R)]
+            recv = np.asarray(x[2])
+            recvs = [key(recv[r]) for r in range(R)]
+            ev = {"ev": "Gather", "what": names[k], "send": sends, "recv": recvs, "be": 0.0, "be_ok": True}
+            if k == ngath - 1:
+                wrow = [key(np.asarray([g for g in log0 if g[0] == "Gather"][gi - k][2])[r]) for r in range(R)]
+                erow = [key(np.asarray([g for g in log0 if g[0] == "Gather"][gi - k + 1][2])[r]) for r in range(R)]
+                be = float(bcasts[block_idx])
+                want = float(np.dot(wrow, erow) / np.sum(wrow)) if np.sum(wrow) != 0 else float("nan")
+                ev["be"] = be
+                ev["be_ok"] = bool(abs(be - want) <= 1e-5 * max(1.0, abs(want)) or (np.isnan(be) and np.isnan(want)))
+            vals.update(v for v in sends + recvs + [ev["be"]] if np.isfinite(v))
+            events.append(ev)
+            gi += 1
+        elif x[0] == "Savetxt":
+            rows = np.atleast_2d(x[2])
+            vals.update(float(v) for v in rows.reshape(-1) if np.isfinite(v))
+            events.append({"ev": "Savetxt", "file": x[1], "rows": rows.tolist()})
+        elif x[0] == "Blocking":
+            mean, err = x[5]
+            vals.update(float(v) for v in np.concatenate([x[1], x[2]]) if np.isfinite(v))
+            for v in (mean, err):
+                if v is not None and np.isfinite(v):
+                    vals.add(float(v))
+            events.append({"ev": "Blocking", "w": x[1].tolist(), "x": x[2].tolist(), "neql": x[3], "mean": None if mean is None else float(mean),
+                           "err": None if err is None else float(err), "avg_ok": True})
+        elif x[0] == "Reject":
+            a, k = x[3]
+            vals.update(float(v) for v in x[1].reshape(-1) if np.isfinite(v))
+            events.append({"ev": "Reject", "rows": np.atleast_2d(x[1]).tolist(), "col": x[2], "m_default": not a and not k,
+                           "mask": [bool(v) for v in x[5]], "out": np.atleast_2d(x[4]).reshape(-1, x[1].shape[1]).tolist()})
+        elif x[0] == "Reduce":
+            events.append({"ev": "Reduce", "send": [next(y[1] for y in rec["logs"][r] if y[0] == "Reduce") for r in range(R)], "recv": x[2]})
+    res = rec["results"]
+    e0, err0 = res[0]
+    for v in (e0, err0):
+        if v is not None and np.isfinite(v):
+            vals.add(float(v))
+    events.append({"ev": "Return", "e": None if e0 is None else float(e0), "err": None if err0 is None else float(err0),
+                   "all_ranks_same": all((np.asarray(r_, dtype=float) == np.asarray(res[0], dtype=float)).all() or
+                                         (np.isnan(np.asarray(r_, dtype=float)) == np.isnan(np.asarray(res[0], dtype=float))).all() for r_ in res),
+                   "large": rec["large"] if rec["large"] is not None else -7})
+    # ---- floats -> identifiers
+    order = {v: i for i, v in enumerate(sorted(vals))}
+
+    def ident(v):
+        if v is None:
+            return -1
+        if isinstance(v, (list, tuple)):
+            return [ident(t) for t in v]
+        if isinstance(v, bool) or isinstance(v, str):
+            return v
+        if isinstance(v, (int, np.integer)) and not isinstance(v, bool) and v == NAN:
+            return NAN
+        v = float(v)
+        return order[v] if np.isfinite(v) else NAN
+
+    out = []
+    for ev in events:
+        d = dict(ev)
+        if d["ev"] == "Sample":
+            d["raw"] = [ident(x) for x in d["raw"]]
+        elif d["ev"] == "Gather":
+            d["send"], d["recv"], d["be"] = ident(d["send"]), ident(d["recv"]), ident(d["be"])
+        elif d["ev"] == "Savetxt":
+            d["rows"] = [ident(r_) for r_ in d["rows"]]
+        elif d["ev"] == "Blocking":
+            d["w"], d["x"], d["mean"], d["err"] = ident(d["w"]), ident(d["x"]), ident(d["mean"]), ident(d["err"])
+        elif d["ev"] == "Reject":
+            d["rows"], d["out"] = [ident(r_) for r_ in d["rows"]], [ident(r_) for r_ in d["out"]]
+        elif d["ev"] == "Return":
+            d["e"], d["err"] = ident(d["e"]), ident(d["err"])
+        out.append(d)
+    consts = {"tobs": order[trial_obs], "tnrm": order[trial_norm], "noobs": order[f32(const)], "zero": order[0.0]}
+    return out, consts, raw
+
+
+def validate_recorded(chk: Check, trace, consts, R, n_blocks, ad, name):
+    wd = chk.scratch(f"reptrace-{name}")
+    (wd / "trace.ndjson").write_text("".join(json.dumps(e) + "\n" for e in trace))
+    cfg = CFG.format(spec="TSpec", R=R, nblk=n_blocks, ad=ad, wv="{0}", ev="{0}", ov="{0}", nv="{0}", tobs=consts["tobs"],
+                     tnrm=consts["tnrm"], noobs=consts["noobs"], mut="none")
+    cfg += f"  ZeroId = {consts['zero']}\nCONSTRAINT Track\nPOSTCONDITION WriteVerdict\nCHECK_DEADLOCK FALSE\n"
+    r = chk.tlc("ReportTrace", cfg, env={"REPORT_TRACE": str(wd / "trace.ndjson"), "REPORT_VERDICT": str(wd / "verdict.json")},
+                workers=1, name=f"ReportTrace-{name}", timeout=600)
+    if not (wd / "verdict.json").exists():
+        raise MachineryError("ReportTrace wrote no verdict:\n" + r.stdout[-1500:])
+    v = json.loads((wd / "verdict.json").read_text().splitlines()[0])
+    v["accepted"] = v["reached"] == v["len"]
+    v["clause"] = v["bad"][1] if v["bad"][0] else ""
+    v["first_unexplained"] = None if v["accepted"] else trace[v["reached"]]
+    return v
+
+
+TRACE_PROPERTY_CLAUSES = ("ReportedMean", "CleanIsSelection", "CleanFileIsKeptRows", "ReturnedEnergyIsReportedMean",
+                          "ReturnedErrorIsReportedError", "ReportedObservable")
+
+
+def replay_recorded(chk: Check, violation_site="driver.afqmc:report"):
+    """real runs (real sampler) recorded and replayed by ReportTrace.tla; a corrupted copy of the first trace must be rejected"""
+    big = chk.tier == "thorough"
+    scen = [(1, "none", (2, 1, 1), 4), (2, "forward", (2, 1, 1), 3), (3, "none", (1, 2, 1), 3), (2, "reverse", (2, 1, 1), 3),
+            (1, "none", (1, 1, 1), 22)]
+    if big:
+        scen += [(3, "forward", (1, 1, 2), 4), (4, "none", (2, 1, 1), 3), (2, "forward", (1, 1, 1), 31), (3, "reverse", (1, 1, 1), 4)]
+    stats = {"runs": 0, "events": 0, "rejected_corruptions": 0}
+    first = None
+    for j, (R, ad, blk, nblk) in enumerate(scen):
+        mk = lambda r, j=j: runlevel.make_system(np.random.default_rng(9300 + j + chk.seed), norb=4, nelec=(2, 1), nchol=2, trial_kind="uhf",
+                                                 walker_type="uhf", n_walkers=4, dt=0.02, vscale=0.3)
+        opts = runlevel.default_options(seed=31 + j + chk.seed, n_eql=1, ad_mode=None if ad == "none" else ad)
+        obsv = None
+        if ad != "none":
+            a = np.random.default_rng(9400 + j).normal(size=(2, 4, 4))
+            obsv = ((a + a.transpose(0, 2, 1)) / 2, 0.25)
+        rec = record_run(chk, R, mk, opts, blk, nblk, obsv, f"rec{j}")
+        if not rec["ok"]:
+            chk.violation(f"{violation_site}:DriverRuns:{ad}", f"driver.afqmc ({R} rank(s), ad_mode {ad}) raised: {rec['describe']}", {"scenario": [R, ad, blk, nblk]})
+            continue
+        s0 = rec["systems"][0]
+        trial_rdm1 = np.asarray(s0["trial"].get_rdm1(s0["wave_data"]))
+        trace, consts, raw = build_trace(rec, R, nblk, ad, obsv, trial_rdm1)
+        v = validate_recorded(chk, trace, consts, R, nblk, ad, f"rec{j}")
+        stats["runs"] += 1
+        stats["events"] += len(trace)
+        chk.traces += 1
+        chk.case(("report-recorded", j), nontrivial=True)
+        if first is None:
+            first = (trace, consts, R, nblk, ad)
+        what = None
+        if v["clause"]:
+            what = f"clause {v['clause']} fails at event {v['bad'][0]} ({trace[v['bad'][0] - 1]['ev']})"
+        elif not v["accepted"]:
+            what = f"first unexplained call {json.dumps(v['first_unexplained'])[:300]} at {v['at']}"
+        if what:
+            msg = f"recorded run of driver.afqmc ({R} rank(s), ad_mode {ad}, {nblk} blocks) is not a behaviour of Report.tla: {what}"
+            if v["clause"] and v["clause"].startswith(TRACE_PROPERTY_CLAUSES):
+                chk.violation(f"{violation_site}:trace:{v['clause'].split('(')[0]}:{ad}", msg, {"scenario": [R, ad, list(blk), nblk]})
+            else:
+                chk.divergence(f"{violation_site}:trace:{(v['clause'] or 'not-a-behaviour').split('(')[0]}:{ad}", msg)
+        chk.sample({"report_recorded": {"ranks": R, "ad_mode": ad, "blocks": nblk}, "events": len(trace), "accepted": v["accepted"],
+                    "clause": v["clause"]}, limit=5)
+    # the binding must bind: corrupted copies of an accepted trace are rejected
+    if first is not None:
+        trace, consts, R, nblk, ad = first
+        import copy
+        muts = []
+        t1 = copy.deepcopy(trace)
+        g = next(e for e in t1 if e["ev"] == "Gather" and e["what"] == "e")
+        g["recv"] = list(reversed(g["recv"])) if len(g["recv"]) > 1 else [g["recv"][0] + 1]
+        muts.append(("gathered energies in the wrong order / changed", t1))
+        t2 = copy.deepcopy(trace)
+        k = next(i for i, e in enumerate(t2) if e["ev"] == "Reject")
+        t2[k]["col"] = 2 - t2[k]["col"] + 1 if t2[k]["col"] in (1, 2) else 1
+        muts.append(("outlier rejection on the other column", t2))
+        t3 = [e for e in copy.deepcopy(trace)]
+        k = next(i for i, e in enumerate(t3) if e["ev"] == "Savetxt")
+        del t3[k]
+        muts.append(("first dump of samples_raw.dat missing", t3))
+        t4 = copy.deepcopy(trace)
+        t4[-1]["e"] = t4[-1]["e"] + 1
+        muts.append(("returned energy is not the analysed mean", t4))
+        for nm, t in muts:
+            v = validate_recorded(chk, t, consts, R, nblk, ad, "corrupt")
+            if v["accepted"] and not v["clause"]:
+                raise MachineryError(f"ReportTrace accepted a corrupted trace ({nm}): the trace specification does not bind")
+            stats["rejected_corruptions"] += 1
+    chk.note("report_recorded", stats)
+    return stats
